@@ -151,4 +151,18 @@ PROPERTIES = {
         "jobs": [J("C07_contact", v, quick={"cases": 150, "shards": 5, "max_size": 60}, thorough={"cases": 6000, "shards": 5, "max_size": 100})
                  for v in ("san", "san-cm0", "san-cm2")],
     },
+    "C08": {
+        "rule": "rapidcheck stateful histories on a real solver: tissues of 2-7 level-1 cells in contact (3/4 all-epithelial, 1/4 mixed classes), "
+                "2-4 face types, 1-4 threads; commands Step(1|2|5 iterations), Shrink(k) (cell k scaled to 0.37 of its volume -> removed at the end "
+                "of the next iteration), Inflate(k) (scaled above its division volume -> divided at the next multiple-of-5 iteration); invariants "
+                "after every iteration. Non-trivial = history containing a removal from the middle of the list followed by further iterations "
+                "AND at least one division; distinct = hash of the case.",
+        "min_nontrivial": 10,
+        "assumptions": ["couplings are only required to be valid after iterations that did not change the population (the next contact phase rebuilds "
+                        "them before any use); stale use inside an iteration is caught by ASan / _GLIBCXX_ASSERTIONS at the point of use",
+                        "a history ends when the solver reports an instability by exception (e.g. mesh refinement failed)",
+                        "epithelial types have the number of face types start-up admits (>= 2 for models 1/2, 3 for model 0)"],
+        "jobs": [J("C08_population", v, quick={"cases": 40, "shards": 5, "max_size": 40}, thorough={"cases": 1500, "shards": 5, "max_size": 60},
+                   env={"VERIF_TMP": "/verif/build/run"}) for v in ("san", "san-cm0", "san-cm2")],
+    },
 }
